@@ -2,8 +2,9 @@
 C15 — JSON encoding round-trips values and agrees with plain JSON.
 
 Property theorems only; lemmas live in `CtyModel/Lemmas/JsonVal*.lean`.  Every statement
-is about `JsonVal.marshal`, `JsonVal.unmarshal`, `JsonVal.impliedType` — the
-transliterations of cty/json's marshal.go, unmarshal.go, type_implied.go that the
+is about `JsonVal.marshal`, `JsonVal.unmarshalTop` (the public `Unmarshal`: annotations of the
+requested type dropped, then `JsonVal.unmarshal`), `JsonVal.impliedType` — the
+transliterations of cty/json's marshal.go, value.go, unmarshal.go, type_implied.go that the
 correspondence harness diffs against /repo on every run — at token-tree level:
 `encoding/json`'s lexer is an oracle (the harness lexes the real bytes), `env.norm` is
 `cty.NormalizeString`, `env.hkey` the set hash (see the header of `CtyModel/JsonVal.lean`).
@@ -13,7 +14,9 @@ well-formed (type and payload agree, strings and names normalised, no optional
 annotation in the value's type), wholly known, unmarked, capsule-free, conforming to
 `t`, and `NumOK` (every number is finite and its `Text('f',-1)` re-parses at 512 bits to
 a `rawNumberEqual` number — an explicit hypothesis, probed by the harness on every run
-for int64/uint64, integers that fit their precision and parsed decimals).
+for int64/uint64, integers below 2^500 held at 512 bits and parsed decimals of up to 90
+digits; it FAILS for a float64 such as 1e23 and for 2^513 at 512 bits, see the two
+`numOK_…_counterexample`s).
 `rtCheck env v t` is the conclusion: Marshal succeeds, Unmarshal of its output with
 the same constraint succeeds, the types are `Equals`, the payloads are `sameP` (structural
 equality, numbers by `rawNumberEqual`: what `RawEquals`/`Equals` compute on known
@@ -23,6 +26,8 @@ NOT PROVED HERE (correspondence and predicate search only): values containing se
 decoder rebuilds the set through the hash oracle; iteration order ≠ storage order).
 -/
 import CtyModel.Lemmas.JsonValRT
+import CtyModel.Lemmas.JsonValStrip
+import CtyModel.Lemmas.JsonValNoOpt
 import CtyModel.Lemmas.JsonValReject
 import CtyModel.Lemmas.JsonValDoc
 import CtyModel.Lemmas.JsonValMirror
@@ -47,29 +52,36 @@ def roundtrip : Prop :=
 /-- The strongest version that holds: the round trip succeeds for every set-free value at
 every depth, dynamic wrappers included, provided every `null` and every empty
 list/map inside the value sits at a position of the constraint that is the placeholder
-itself or is the value's own type there (`exact`) — positions where JSON's `null` / `[]` /
-`{}` can still be given their type back.  Conclusion in full: the encoder returns a
-document, the decoder returns a value of exactly the original type whose payload is the
-same up to `rawNumberEqual` on numbers. -/
+itself or — optional-attribute annotations aside — is the value's own type there (`exact`):
+positions where JSON's `null` / `[]` / `{}` can still be given their type back.  Since /repo
+afdc0a2 (`Unmarshal` drops the annotations of the requested type) optional attributes in
+the constraint cost nothing any more; the only remaining obstacle is a placeholder NESTED in
+the constraint of such a position.  Conclusion in full: the encoder returns a document, the
+decoder returns a value of exactly the original type whose payload is the same up to
+`rawNumberEqual` on numbers. -/
 theorem roundtrip_partial (env : JEnv) (v : Value) (t : Ty)
     (h : rtHyps env v t = true) (hs : setFree v.ty = true) (hx : exact t v.ty v.v = true) :
-    ∃ j v', marshal env v t = .ok j ∧ unmarshal env j t = .ok v' ∧ v'.ty = v.ty ∧
+    ∃ j v', marshal env v t = .ok j ∧ unmarshalTop env j t = .ok v' ∧ v'.ty = v.ty ∧
       sameP v'.v v.v = true := by
   simp only [rtHyps, Bool.and_eq_true, Bool.not_eq_true'] at h
   obtain ⟨⟨⟨⟨⟨⟨⟨⟨⟨⟨h1, h2⟩, h3⟩, h4⟩, h5⟩, h6⟩, h7⟩, h8⟩, h9⟩, h10⟩, h11⟩ := h
   have hr : RT env.norm t v.ty v.v :=
     { wt := h1, wvt := h2, noOpt := h3, noCaps := h9, noSet := hs, names := h6, conf := h10, wfp := h4,
       known := h7, unmarked := h8, nums := h11, strs := h5 }
-  obtain ⟨j, p', hj, hu, hsame⟩ := rt_entry env v.v t v.ty hr hx
+  rw [exact_eq_exact0] at hx
+  -- the decoder works with `t.stripOpt`; the encoder cannot tell `t` from `t.stripOpt`
+  obtain ⟨j, p', hj, hu, hsame⟩ := rt_entry env v.v t.stripOpt v.ty hr.strip hx
     (fun t' a b c => rt_body env v.v t' v.ty a b c)
-  exact ⟨j, ⟨v.ty, p'⟩, hj, hu, rfl, hsame⟩
+  refine ⟨j, ⟨v.ty, p'⟩, ?_, hu, rfl, hsame⟩
+  rw [← marshal_strip]
+  exact hj
 
 /-- … and "equal" in the sense of the code: the transliteration of `Value.Equals`
 (`Value.equals`, the model C01–C03 diff against the implementation) answers a known `True`
 for the decoded value and the original. -/
 theorem roundtrip_partial_equals (env : JEnv) (v : Value) (t : Ty)
     (h : rtHyps env v t = true) (hs : setFree v.ty = true) (hx : exact t v.ty v.v = true) :
-    ∃ j v', marshal env v t = .ok j ∧ unmarshal env j t = .ok v' ∧ v'.ty = v.ty ∧
+    ∃ j v', marshal env v t = .ok j ∧ unmarshalTop env j t = .ok v' ∧ v'.ty = v.ty ∧
       Value.equals v' v = .ok (Value.boolVal true) := by
   obtain ⟨j, v', hj, hu, hty, hsame⟩ := roundtrip_partial env v t h hs hx
   have h' := h
@@ -92,6 +104,58 @@ theorem roundtrip_partial_check (env : JEnv) (v : Value) (t : Ty)
     exact h.1.1.1.1.1.1.1.1.1.2
   simp [rtCheck, hj, hu, hty, hsame, (Ty.equals_iff_eq v.ty v.ty hw hw).mpr rfl]
 
+/-- A constraint WITHOUT a placeholder — optional-attribute annotations allowed anywhere in
+it — needs no side condition at all: every set-free value that conforms to it round-trips,
+nulls and empty collections at every depth included.  (Before /repo afdc0a2 this failed for
+annotated constraints: `NullVal(Object{a})` against `ObjectWithOptionalAttrs{a?}` came back
+as a null of the ANNOTATED type; recorded then as `roundtrip [type:typeloss-*]`, now
+repaired.)  What is left of that finding is the nested placeholder, below. -/
+theorem roundtrip_placeholder_free (env : JEnv) (v : Value) (t : Ty)
+    (h : rtHyps env v t = true) (hs : setFree v.ty = true) (hd : hasDyn t = false) :
+    ∃ j v', marshal env v t = .ok j ∧ unmarshalTop env j t = .ok v' ∧ v'.ty = v.ty ∧
+      sameP v'.v v.v = true ∧ Value.equals v' v = .ok (Value.boolVal true) := by
+  have h' := h
+  simp only [rtHyps, Bool.and_eq_true, Bool.not_eq_true'] at h'
+  obtain ⟨⟨⟨⟨⟨⟨⟨⟨⟨⟨h1, h2⟩, h3⟩, h4⟩, _⟩, _⟩, _⟩, _⟩, _⟩, h10⟩, _⟩ := h'
+  have hx := exact_of_noDyn t v.ty v.v h1 h2 hd h3 h10 h4
+  obtain ⟨j, v', hj, hu, hty, hsame⟩ := roundtrip_partial env v t h hs hx
+  obtain ⟨j2, v2, hj2, hu2, _, heq⟩ := roundtrip_partial_equals env v t h hs hx
+  rw [hj] at hj2
+  cases hj2
+  rw [hu] at hu2
+  cases hu2
+  exact ⟨j, v', hj, hu, hty, hsame, heq⟩
+
+/-- REGRESSION (fixed by /repo afdc0a2), the recorded witnesses: a null object, an empty list
+of objects, and a null next to a non-null sibling in a list, each against the constraint that
+marks the attribute optional.  Before the fix the first two came back with the annotated type
+(type not `Equals`), the third was refused ("all list elements must have the same type"). -/
+theorem roundtrip_optional_annotation_regression :
+    rtCheck env0 ⟨.object ["a"] [.string] [false], .null⟩ (.object ["a"] [.string] [true]) = true ∧
+    rtCheck env0 ⟨.list (.object ["a"] [.string] [false]), .seq []⟩ (.list (.object ["a"] [.string] [true])) = true ∧
+    rtCheck env0 ⟨.list (.object ["a"] [.string] [false]), .seq [.null, .smap ["a"] [.s "x"]]⟩
+      (.list (.object ["a"] [.string] [true])) = true := by decide
+
+/-- … and the same from input alone: a dynamic type descriptor with an optional attribute,
+`{"type":["object",{"a":"string"},["a"]],"value":null}`, decodes to a null of the object type
+WITHOUT the annotation (`unmarshalDynamic` goes through the public `Unmarshal`). -/
+theorem dynamic_descriptor_annotation_dropped :
+    unmarshalTop env0 (.obj ["type", "value"]
+        [.arr [.str "object", .obj ["a"] [.str "string"], .arr [.str "a"]], .null]) .dyn =
+      .ok ⟨.object ["a"] [.string] [false], .null⟩ := by rfl
+
+/-- The statement of the repair itself, for EVERY document and EVERY requested type (sets,
+capsules, dynamic wrappers, ill-formed documents included): whenever `Unmarshal` returns a
+value, the type of that value carries no optional-attribute annotation anywhere — whether
+the annotation was in the requested type or in a type descriptor inside the document. -/
+theorem unmarshal_type_has_no_annotations (env : JEnv) (j : Json) (t : Ty) (v : Value)
+    (h : unmarshalTop env j t = .ok v) : hasOpt v.ty = false :=
+  unmarshalTop_noOpt env j t v h
+
+/-- non-vacuous: the annotated request and the annotated descriptor both decode -/
+example : (∃ v, unmarshalTop env0 .null (.object ["a"] [.string] [true]) = .ok v) ∧
+    hasOpt (.object ["a"] [.string] [true]) = true := ⟨⟨_, rfl⟩, by decide⟩
+
 /-- COUNTEREXAMPLE (null under a partially dynamic constraint): `NullVal(List(String))`
 against `List(DynamicPseudoType)` is written as `null` and read back as
 `NullVal(List(DynamicPseudoType))` — the type is lost. -/
@@ -112,7 +176,7 @@ theorem roundtrip_refused_counterexample :
     rtHyps env0 ⟨.list (.list .string), .seq [.null, .seq [.s "a"]]⟩ (.list (.list .dyn)) = true ∧
     (match marshal env0 ⟨.list (.list .string), .seq [.null, .seq [.s "a"]]⟩ (.list (.list .dyn)) with
      | .ok j =>
-       (match unmarshal env0 j (.list (.list .dyn)) with
+       (match unmarshalTop env0 j (.list (.list .dyn)) with
         | .err _ => true
         | _ => false)
      | _ => false) = true := by decide
@@ -125,23 +189,36 @@ theorem numOK_needed_counterexample :
     rtCheck env0 ⟨.number, .n (.fin false 2980232238769531 25 53)⟩ .number = false := by
   decide +kernel
 
+/-- `NumOK` also fails for numbers held at cty's OWN 512 bits: 2^513.  math/big's shortest
+text takes the rounding interval to be symmetric, but below a power of two the neighbour is
+only half as far: it prints …168190 = 2^513 − 2, the float just below, and that is what the
+decoder returns (`Num.textF` transliterates the search, the correspondence diffs it on every
+run).  Recorded as `roundtrip [equals:num-text-not-exact-at-own-precision]`. -/
+theorem numOK_power_of_two_counterexample :
+    numOK (.fin false 1 513 512) = false ∧
+    rtCheck env0 ⟨.number, .n (.fin false 1 513 512)⟩ .number = false := by
+  decide +kernel
+
 /-! ## Mirror: a value against its own type -/
 
 /-- against its own type no position is inexact … -/
-theorem exact_self (vt : Ty) (p : Payload) (hw : wf vt = true) (hp : wfP vt p = true) :
-    exact vt vt p = true := by
+theorem exact_self (vt : Ty) (p : Payload) (hw : wf vt = true) (ho : hasOpt vt = false)
+    (hp : wfP vt p = true) : exact vt vt p = true := by
   have := exactK_self p vt hw hp
-  unfold exact; split <;> exact this
+  unfold exact
+  rw [stripOpt_id_of_noOpt vt ho]
+  split <;> exact this
 
 /-- … so `Unmarshal(Marshal(v, v.Type()), v.Type())` returns `v` for every set-free value
 (no side condition on nulls or empties) -/
 theorem mirror (env : JEnv) (v : Value)
     (h : rtHyps env v v.ty = true) (hs : setFree v.ty = true) :
-    ∃ j v', marshal env v v.ty = .ok j ∧ unmarshal env j v.ty = .ok v' ∧ v'.ty = v.ty ∧
+    ∃ j v', marshal env v v.ty = .ok j ∧ unmarshalTop env j v.ty = .ok v' ∧ v'.ty = v.ty ∧
       sameP v'.v v.v = true := by
   have h' := h
-  simp only [rtHyps, Bool.and_eq_true] at h'
-  exact roundtrip_partial env v v.ty h hs (exact_self v.ty v.v h'.1.1.1.1.1.1.1.1.1.2 h'.1.1.1.1.1.1.1.2)
+  simp only [rtHyps, Bool.and_eq_true, Bool.not_eq_true'] at h'
+  exact roundtrip_partial env v v.ty h hs
+    (exact_self v.ty v.v h'.1.1.1.1.1.1.1.1.1.2 h'.1.1.1.1.1.1.1.1.2 h'.1.1.1.1.1.1.1.2)
 
 /-- "the bytes are valid JSON whose plain decoding mirrors the value's structure": against
 its own placeholder-free type a set-free value is encoded without any wrapper object —
@@ -209,10 +286,14 @@ value has exactly that type, and re-marshalling returns the document with every 
 string replaced by its normal form, up to number spelling. -/
 theorem doc_roundtrip_partial (env : JEnv) (d : Json) (h : docOK env d = true) :
     impliedType env d = .ok (structTy env.norm d) ∧
-    ∃ v d', unmarshal env d (structTy env.norm d) = .ok v ∧ v.ty = structTy env.norm d ∧
+    ∃ v d', unmarshalTop env d (structTy env.norm d) = .ok v ∧ v.ty = structTy env.norm d ∧
       marshal env v (structTy env.norm d) = .ok d' ∧ jsonNormEq env.norm d' d = true := by
   obtain ⟨p, d', hi, hu, hm, hk, hmar, he⟩ := doc_rt env d h
-  refine ⟨hi, ⟨structTy env.norm d, p⟩, d', hu, rfl, ?_, he⟩
+  have hu' : unmarshalTop env d (structTy env.norm d) = .ok ⟨structTy env.norm d, p⟩ := by
+    unfold unmarshalTop
+    rw [stripOpt_id_of_noOpt _ (structTy_noOpt env.norm d)]
+    exact hu
+  refine ⟨hi, ⟨structTy env.norm d, p⟩, d', hu', rfl, ?_, he⟩
   unfold marshal
   rw [marshalEntry_same (structTy env.norm d) p _ hm hk]
   exact hmar
